@@ -140,7 +140,7 @@ Hypothesis Hv : validators p r m = true.
 Let p' := with_main p (Some (main_args inputs)) outputs.
 
 Lemma validators_split :
-  global_unique (mmain m) = true /\ node_names_unique (mmain m) = true /\ imports_unique m = true /\
+  global_unique (mmain m) = true /\ node_names_unique (mmain m) = true /\ imports_unique m = true /\ floor_ok m = true /\
   emitted_once p' (mmain m) = true /\ placed p' (mmain m) = true /\ check_plan p' 0 (mmain m) = true /\
   functions_exact p' m = true /\ function_imports_cover p' m = true /\ function_plans p' m = true /\
   inline_blocks_alpha p' m = true /\
@@ -157,7 +157,7 @@ Proof. destruct validators_split as (_ & _ & H & _). now apply (nodupb_NoDup Str
 
 Theorem emitted_exactly_once :
   NoDup (srcs_graph (mmain m)) /\ forall u, In u (srcs_graph (mmain m)) <-> In u (reachable p' 0).
-Proof. destruct validators_split as (_ & _ & _ & H & _). unfold emitted_once in H.
+Proof. destruct validators_split as (_ & _ & _ & _ & H & _). unfold emitted_once in H.
   apply andb_prop in H. destruct H as [H H3]. apply andb_prop in H. destruct H as [H1 H2]. split.
   - now apply (nodupb_NoDup nref_eqb nref_eqb_spec).
   - intros u. rewrite forallb_forall in H2, H3. split; intros Hu.
@@ -170,7 +170,7 @@ Theorem placed_innermost u pu : In (NReal u, pu) (paths_graph [] (mmain m)) ->
   let cps := flat_map (fun w => match lookup nref_eqb w paths with Some q => [q] | None => [] end)
                       (consumers p' (map fst paths) (NReal u)) in
   cps <> [] /\ (forall q, In q cps -> prefix pu q) /\ (forall c, (forall q, In q cps -> prefix c q) -> prefix c pu).
-Proof. intros Hu paths cps. destruct validators_split as (_ & _ & _ & _ & H & _). unfold placed in H.
+Proof. intros Hu paths cps. destruct validators_split as (_ & _ & _ & _ & _ & H & _). unfold placed in H.
   rewrite forallb_forall in H. specialize (H _ Hu). cbn beta iota in H. fold paths in H. fold cps in H.
   destruct (lcp_all cps) as [l|] eqn:El; [|discriminate].
   apply (list_eqb_eq Nat.eqb Nat.eqb_spec) in H. subst l. destruct (lcp_all_spec _ _ El) as [H1 H2].
@@ -184,11 +184,11 @@ Theorem io_names_exact :
     map snd gi = map (fun kv => match vty p' (snd kv) with Some t => tshow t | None => "?"%string end)
                      (if r_drop r then filter (fun kv => mem var_eqb (snd kv) (depends_on p' 0)) inputs else inputs)
   end.
-Proof. destruct validators_split as (_ & _ & _ & _ & _ & _ & _ & _ & _ & _ & H). unfold io_exact in H. destruct (mmain m) as [gi b go_].
+Proof. destruct validators_split as (_ & _ & _ & _ & _ & _ & _ & _ & _ & _ & _ & H). unfold io_exact in H. destruct (mmain m) as [gi b go_].
   repeat (apply andb_prop in H; destruct H as [H ?]).
   repeat split; now apply (list_eqb_eq String.eqb string_eqb_spec). Qed.
 Theorem plan_checked : check_plan p' 0 (mmain m) = true.
-Proof. now destruct validators_split as (_ & _ & _ & _ & _ & H & _). Qed.
+Proof. now destruct validators_split as (_ & _ & _ & _ & _ & _ & H & _). Qed.
 
 Lemma key_eqb_spec a b : reflect (a = b) (key_eqb a b).
 Proof. destruct a as [a1 a2], b as [b1 b2]. unfold key_eqb. simpl.
@@ -197,7 +197,7 @@ Proof. destruct a as [a1 a2], b as [b1 b2]. unfold key_eqb. simpl.
 (* exactly one definition per used (domain, name) *)
 Theorem functions_one_per_key :
   NoDup (fkeys m) /\ (forall k, In k (used_fkeys p' m) <-> In k (fkeys m)).
-Proof. destruct validators_split as (_ & _ & _ & _ & _ & _ & H & _). unfold functions_exact in H.
+Proof. destruct validators_split as (_ & _ & _ & _ & _ & _ & _ & H & _). unfold functions_exact in H.
   apply andb_prop in H. destruct H as [H H3]. apply andb_prop in H. destruct H as [H1 H2]. split.
   - now apply (nodupb_NoDup key_eqb key_eqb_spec).
   - intros k. rewrite forallb_forall in H2, H3. split; intros Hk.
@@ -207,7 +207,7 @@ Proof. destruct validators_split as (_ & _ & _ & _ & _ & _ & H & _). unfold func
 Theorem function_imports_cover_body f u dv :
   In f (mfunctions m) -> In u (flat_map srcs_node (f_body f)) -> In dv (node_req p' u) ->
   exists iv, In iv (f_imports f) /\ fst iv = fold_domain (fst dv) /\ snd dv <= snd iv.
-Proof. intros Hf Hu Hd. destruct validators_split as (_ & _ & _ & _ & _ & _ & _ & H & _). unfold function_imports_cover in H.
+Proof. intros Hf Hu Hd. destruct validators_split as (_ & _ & _ & _ & _ & _ & _ & _ & H & _). unfold function_imports_cover in H.
   rewrite forallb_forall in H. specialize (H f Hf). rewrite forallb_forall in H. specialize (H u Hu).
   rewrite forallb_forall in H. specialize (H dv Hd). unfold covered in H. apply existsb_exists in H.
   destruct H as [iv [Hiv Hc]]. apply andb_prop in Hc. destruct Hc as [H1 H2]. exists iv. split; [assumption|]. split.
@@ -215,6 +215,6 @@ Proof. intros Hf Hu Hd. destruct validators_split as (_ & _ & _ & _ & _ & _ & _ 
   - now apply Nat.leb_le in H2. Qed.
 
 Theorem function_plan_checked f : In f (mfunctions m) -> check_plan p' (f_bodyid f) (MGraph [] (f_body f) []) = true.
-Proof. intros Hf. destruct validators_split as (_ & _ & _ & _ & _ & _ & _ & _ & H & _). unfold function_plans in H.
+Proof. intros Hf. destruct validators_split as (_ & _ & _ & _ & _ & _ & _ & _ & _ & H & _). unfold function_plans in H.
   rewrite forallb_forall in H. now apply H. Qed.
 End Valid.
